@@ -239,6 +239,19 @@ func genYAMLInput(r *scen.Rand, av Avoid, invalidP float64) scen.Value {
 func mutateString(r *scen.Rand, s string, av Avoid, multi bool) string {
 	for tries := 0; tries < 20; tries++ {
 		var t string
+		if !multi && r.Bool(0.15) {
+			// standalone files keep carriage returns: line-ending variants are distinct values
+			if strings.Contains(s, "\r\n") {
+				t = strings.ReplaceAll(s, "\r\n", "\n")
+			} else if strings.Contains(s, "\n") {
+				t = strings.ReplaceAll(s, "\n", "\r\n")
+			} else {
+				t = s + "\r"
+			}
+			if t != s {
+				return t
+			}
+		}
 		switch r.Intn(12) {
 		case 0:
 			t = s + "\n"
